@@ -18,6 +18,8 @@ TN = [n for n, _ in gen.INT_TYPES]
 SEM_FEATURES = {"signed_widen_to_unsigned", "narrow_shift", "cmp_unpromoted", "ternary_unpromoted", "bool_as_int", "logic_mixed",
                 "narrow_compound", "big_literal", "fold_arith", "fold_unary", "fold_cmp", "const_cond", "literal_cast", "explicit_pair",
                 "explicit_rw_mixed", "loop_may_not_terminate", "y_reg_unread"}
+HYB_DEFECT_FEATURES = {"hybrid_in_ternary_arm", "hybrid_in_logic_rhs", "unused_hybrid", "call_in_loop_cond", "stmtexpr_arm_fresh_local", "callee_tmp"}
+NOT_JUDGED = {"unsequenced_interference", "loop_var_modified_in_body"}   # C leaves these undefined / unspecified
 TB = [
     "Lean 4.33 kernel; axioms propext, Classical.choice, Quot.sound (audited per theorem)",
     "C side: Model/CSem.lean (C11 integer semantics with QEMU conventions, DESIGN 3.1); IL side: Model/ILSem.lean (RzIL + plugin macro contract, DESIGN 3.2) — the specification, modelled not verified",
@@ -145,8 +147,94 @@ def programs_C09(rng, tier):
 
 def stream_generated(rng, n_clean, n_wild, cfg):
     g = gen.Gen(rng, cfg)
-    forb = SEM_FEATURES | gen.SORT_FEATURES | gen.TEXT_FEATURES | {"callee_tmp", "hybrid_in_ternary_arm", "unused_hybrid", "hybrid_in_condition", "call_in_loop_cond"}
+    forb = (SEM_FEATURES | gen.SORT_FEATURES | gen.TEXT_FEATURES | HYB_DEFECT_FEATURES | NOT_JUDGED) - {"stmt_expr_bare"}
     return [g.clean_program(forb) for _ in range(n_clean)] + [g.program() for _ in range(n_wild)]
+
+
+def call(name, *args):
+    sig = {c[0]: c for c in gen.CALLS}[name]
+    return ("call", name, list(args), sig[2])
+
+
+def programs_C06(rng, tier):
+    """directed placements of value-producing side effects"""
+    out = []
+    i32 = ("lit", "0", 0, (True, 32))
+    one = ("lit", "1", 1, (True, 32))
+    iv = ("var", "i", (False, 32))
+    pre = [("assign", iv, "=", reg("RsV")), decl("uint32_t", "v", reg("RtV"))]
+    v = var("v", "uint32_t")
+    hy = [lambda: ("post", "i", "++"), lambda: ("post", "i", "--"), lambda: ("post", "v", "++", T["uint32_t"]), lambda: call("clz32", reg("RuV")),
+          lambda: call("revbit32", v), lambda: ("stmtexpr", "", T["uint32_t"], "v", ("bin", "+", v, reg("RuV")), False)]
+    for h in hy:
+        out.append(pre + [decl("uint64_t", "w", h()), wr("RddV", var("w", "uint64_t"))])                      # initialiser
+        out.append(pre + [wr("RdV", ("bin", "+", h(), reg("RvV")))])                                              # assignment
+        out.append(pre + [("if", ("cmp", ">", h(), one), [wr("RdV", one)], [wr("RdV", iv)])])                     # condition (with else)
+        out.append(pre + [("if", h(), [wr("RdV", iv)], None), wr("ReV", v)])                                      # condition (no else)
+        out.append(pre + [wr("RdV", call("clz32", ("bin", "+", h(), one)))])                                      # call argument
+        out.append(pre + [("store", 32, h(), v)])                                                                 # address
+        out.append(pre + [("jump", h())])
+        out.append(pre + [("for", "j", ("lit", "3", 3, (True, 32)), [wr("RxV", ("bin", "+", reg("RxV"), h()))])]) # loop body
+        out.append(pre + [("exprstmt", h()), wr("RdV", iv), wr("ReV", v)])                                        # value unused
+        out.append(pre + [wr("RdV", ("tern", reg("PuV"), ("stmtexpr", "", T["uint32_t"], "v", ("bin", "+", v, one), False),
+                                       ("stmtexpr", "", (False, 32), "i", ("bin", "-", iv, one), False))), wr("ReV", ("bin", "+", iv, v))])   # both arms statement-expressions
+        out.append(pre + [wr("RdV", ("tern", reg("PuV"), h(), reg("RvV")))])                                      # ?: arm
+        out.append(pre + [wr("RdV", ("bin", "+", h(), call("clz32", reg("RvV")))), wr("ReV", iv)])                # two in one expression
+    for p in out:
+        if any(s[0] == "store" for s in p):
+            p.insert(0, ("assign", ("var", "EA", (False, 32)), "=", reg("RuV")))
+    return out
+
+
+def _conv_round_csub():
+    """C text of the bundled conv_round (sub_routines.json), as AST, for the C side."""
+    i32, i64, u32 = (True, 32), (True, 64), (False, 32)
+    a, n, cv = ("var", "a", i32), ("var", "n", i32), ("var", "conv_val", i64)
+    L = lambda v: ("lit", str(v), v, (True, 32))
+    sh1 = lambda e: ("shift", "<<", L(1), e)
+    body = [("decl", "int64_t", i64, "conv_val", None),
+            ("if", ("cmp", "==", n, L(0)), [("assign", cv, "=", a)],
+             [("if", ("cmp", "==", ("bin", "&", a, ("bin", "-", sh1(("bin", "-", n, L(1))), L(1))), L(0)),
+               [("assign", cv, "=", ("bin", "+", ("cast", "int64_t", i64, ("cast", "int32_t", i32, a)),
+                                      ("cast", "int64_t", i64, ("shift", ">>", ("cast", "uint32_t", u32, ("bin", "&", sh1(n), a)), L(1)))))],
+               [("assign", cv, "=", ("bin", "+", ("cast", "int64_t", i64, ("cast", "int32_t", i32, a)), sh1(("bin", "-", n, L(1)))))])]),
+            ("assign", cv, "=", ("shift", ">>", cv, n)),
+            ("ret", ("cast", "int32_t", i32, cv))]
+    return ["csub", Q("conv_round"), [[Q("a"), [True, 32]], [Q("n"), [True, 32]]], [True, 32], semcheck.stmts(body)]
+
+
+CSUBS = [_conv_round_csub()]   # C-side definitions of routines without a closed-form reference
+
+
+def programs_C08(rng, tier):
+    out = []
+    a = [reg("RsV"), reg("RssV"), reg("PuV"), ("cast", "int8_t", T["int8_t"], reg("RtV")), ("cast", "uint16_t", T["uint16_t"], reg("RtV"))]
+    for name, pts, rt in gen.CALLS:
+        for x in a:
+            args = [x] + [("bin", "&", reg("RvV"), ("lit", "15", 15, (True, 32)))] * (len(pts) - 1)
+            out.append([wr("RddV", ("call", name, args, rt))])
+            out.append([decl("int64_t", "r", ("call", name, args, rt)), wr("RddV", var("r", "int64_t"))])
+    # several calls per expression, nested calls
+    for n1, p1, r1 in gen.CALLS[:7]:
+        for n2, p2, r2 in gen.CALLS[:7]:
+            out.append([wr("RddV", ("bin", "+", ("call", n1, [reg("RsV")], r1), ("call", n2, [reg("RtV")], r2)))])
+            out.append([wr("RddV", ("call", n1, [("call", n2, [reg("RssV")], r2)], r1))])
+    if tier == "quick":
+        rng.shuffle(out)
+        out = out[:150]
+    return out + dead_arm_calls()
+
+
+def dead_arm_calls():
+    """constant ?: conditions whose arms are calls, followed by another call (temporary numbering)"""
+    out = []
+    zero, one = ("lit", "0", 0, (True, 32)), ("lit", "1", 1, (True, 32))
+    for cond in (zero, one, ("cmp", "==", one, zero), ("cmp", "<", zero, one)):
+        for n1, n2, n3 in (("clz32", "clz32", "clz32"), ("revbit32", "clz32", "revbit32"), ("clz32", "revbit32", "clz32")):
+            f = lambda n, r: ("call", n, [reg(r)], (False, 32))
+            out.append([wr("RdV", ("bin", "+", ("tern", cond, f(n1, "RsV"), f(n2, "RtV")), f(n3, "RuV")))])
+            out.append([wr("RdV", ("bin", "+", f(n3, "RuV"), ("tern", cond, f(n1, "RsV"), f(n2, "RtV"))))])
+    return out
 
 
 def explicit_rw_mixed(ast) -> bool:
@@ -168,8 +256,14 @@ def run_prop(prop: str, tier: str, replay=None) -> int:
     elif prop == "C05":
         n = 220 if tier == "quick" else 2500
         asts = stream_generated(rng, n, n // 2, gen.Cfg(hybrids=0.0, max_stmts=6, max_nest=3, loops=0.2, ifs=0.3, compound_assign=0.4, max_depth=2, chains=0.35))
+    elif prop == "C06":
+        n = 150 if tier == "quick" else 2000
+        asts = programs_C06(rng, tier) + stream_generated(rng, n, n // 2, gen.Cfg(hybrids=0.35, max_stmts=4, max_nest=2, max_depth=2, loops=0.15, ifs=0.25))
+    elif prop == "C08":
+        n = 120 if tier == "quick" else 1500
+        asts = programs_C08(rng, tier) + stream_generated(rng, n, n // 3, gen.Cfg(hybrids=0.5, max_stmts=3, max_depth=3))
     else:
-        asts = programs_C09(rng, tier) + stream_generated(rng, 40, 40, gen.Cfg(hybrids=0.0, literals=0.5, max_stmts=2))
+        asts = programs_C09(rng, tier) + dead_arm_calls() + stream_generated(rng, 40, 40, gen.Cfg(hybrids=0.0, literals=0.5, max_stmts=2))
     if replay:
         rp = json.load(open(replay))
         if "ast" in rp:
@@ -193,8 +287,28 @@ def run_prop(prop: str, tier: str, replay=None) -> int:
         else:
             it.update(status="ok", text={"READ_STATEMENTS": r[1]})
     rc.close_pool()
-    reqs = semcheck.sem_requests(items, nstates, seed() + 1)
-    reps = Driver().run([r for _, r in reqs])
+    subdefs = rc.sub_routine_defs(c)
+    pre = [sx(["def-sub", n_, ret, [[p_, s_] for p_, s_ in params], Q(text)]) for n_, ret, params, text in subdefs]
+    import re as _re
+    callee_tmps = {n_: set(_re.findall(r'SETL\("(h_tmp\d+)"', text)) for n_, _, _, text in subdefs}
+    for it in items:
+        if it.get("status") != "ok":
+            continue
+        mine = set(_re.findall(r'"(h_tmp\d+)"', it["text"]["READ_STATEMENTS"]))
+        for cn, ts in callee_tmps.items():
+            if ts & mine and (cn + "(") in it["src"]:
+                it["features"].add("callee_tmp")   # a caller temporary has the name of a temporary the callee's body sets
+    reqs = semcheck.sem_requests(items, nstates, seed() + 1, csubs=CSUBS)
+    allreps = Driver().run(pre + [r for _, r in reqs])
+    reps = allreps[len(pre):]
+    sub_problems = []
+    if prop == "C08":
+        import textcheck as _tc
+        for (n_, _, _, _), rp0 in zip(subdefs, allreps[:len(pre)]):
+            rep = _tc.parse_report(rp0)
+            for kk in ("c10", "c11", "c12"):
+                if rep.get(kk):
+                    sub_problems.append({"what": f"compiled body of sub-routine {n_}: {rep[kk][:2]} (argument / return conversions and ownership inside the callee)", "sub": n_})
     viol, samples = [], []
     cnt = collections.Counter()
     known_by_feature = collections.Counter()
@@ -217,18 +331,24 @@ def run_prop(prop: str, tier: str, replay=None) -> int:
         if len(samples) < 3:
             samples.append({"program": it["src"], "carve_out_classes": sorted(feats), "tree_equal": d["tree-equal"], "states": d["ran"]})
         if not d["tree-equal"]:
-            if feats & {"const_cond", "fold_cmp"}:
-                cnt["tree_diff_dead_arm_class"] += 1   # dead-arm removal leaves undeclared identifiers in the text (listed C11 finding)
+            import re as _re2
+            # identifiers standing alone as an operand (an undeclared C variable in the emitted text)
+            bare = lambda t: set(_re2.findall(r'(?<![\w"&>.*])([A-Za-z_]\w*)(?=[,)])', t)) - {"pkt", "hi", "bundle", "true", "false", "IL_TRUE", "IL_FALSE"}
+            if feats & {"const_cond", "fold_cmp"} and (bare(d["real"]) - bare(d["model"])):
+                cnt["tree_diff_dead_arm_class"] += 1   # dead-arm removal left an undeclared operand variable in the text (listed C11 finding)
             else:
-                tie_broken.append({"program": it["src"], "model": d["model"][:3000], "real": d["real"][:3000], "carve_out_classes": sorted(feats), "fail": d.get("fail")})
+                tie_broken.append({"program": it["src"], "ast": json.dumps(it["ast"]), "model": d["model"][:3000], "real": d["real"][:3000], "carve_out_classes": sorted(feats), "fail": d.get("fail")})
         if d.get("fail"):
-            if feats & known_feats:
+            if feats & NOT_JUDGED:
+                cnt["not_judged_unsequenced"] += 1
+            elif feats & known_feats:
                 for f in feats & known_feats:
                     known_by_feature[f] += 1
             else:
                 viol.append({"what": "the emitted effect does not compute what the C text computes: " + d["fail"], "program": it["src"],
                              "ast": json.dumps(it["ast"]), "carve_out_classes": sorted(feats), "real_tree": d["real"][:3000],
                              "reproduce": f"Compiler(ArchEnum.HEXAGON).compile_c_stmt({it['src']!r}); interpret the returned effect from the reported state"})
+    viol.extend(sub_problems)
     # the tie: a real tree the model does not predict
     for tb in tie_broken[:3]:
         if tb["fail"]:
@@ -249,7 +369,7 @@ def run_prop(prop: str, tier: str, replay=None) -> int:
                 if r[0] == "ok":
                     wast = _detuple(json.loads(k["witness_ast"])) if k.get("witness_ast") else None
                     if wast is not None:
-                        d = semcheck.parse_sem(Driver().run([sx(["sem", "asCode", semcheck.prog_sx(wast), Q(r[1]), 64, 7])])[0])
+                        d = semcheck.parse_sem(Driver().run([sx(["sem", "asCode", semcheck.prog_sx(wast), Q(r[1]), 64, 7, []])])[0])
                         ok_ = bool(d.get("fail")) or d.get("parsed") is False
                         detail = d.get("fail")
             if ok_:
